@@ -17,7 +17,7 @@ def _akey(a):
     return repr(a)
 
 
-KEY_LIMIT = 60000
+KEY_LIMIT = 400000
 _KSIZE: dict = {}
 
 
